@@ -136,7 +136,10 @@ def graphs(draw):
 @st.composite
 def spoils(draw, n, edges):
     """returns extra edge lines (u,v,wtext) violating >= 1 precondition"""
-    kinds = draw(st.lists(st.sampled_from(["loop", "multi", "nonpos"]), min_size=1, max_size=3, unique=True))
+    if draw(st.integers(0, 9)) < 6:   # a single violated precondition most of the time: the other checks cannot mask a missing one
+        kinds = [draw(st.sampled_from(["loop", "multi", "nonpos"]))]
+    else:
+        kinds = draw(st.lists(st.sampled_from(["loop", "multi", "nonpos"]), min_size=2, max_size=3, unique=True))
     extra = []
     for k in kinds:
         if k == "loop":
@@ -148,10 +151,20 @@ def spoils(draw, n, edges):
                 u, v = v, u
             extra.append((u, v, str(draw(st.integers(1, 5)))))
         else:
-            u = draw(st.integers(0, n - 1))
-            v = draw(st.integers(0, n - 1).filter(lambda x: x != u))
+            # a non-positive weight that violates ONLY this precondition: on a vertex pair that is not an edge yet
+            # (when the graph is complete: on any pair, which then also is a repeated pair)
+            have = set((min(a, b), max(a, b)) for a, b, _ in edges)
+            free = [(a, b) for a in range(n) for b in range(a + 1, n) if (a, b) not in have]
+            if free:
+                u, v = free[draw(st.integers(0, len(free) - 1))]
+                if draw(st.booleans()):
+                    u, v = v, u
+            else:
+                u = draw(st.integers(0, n - 1))
+                v = draw(st.integers(0, n - 1).filter(lambda x: x != u))
             extra.append((u, v, draw(st.sampled_from(["0", "-1", "-2.5", "0.0"]))))
-    pos = draw(st.integers(0, len(edges)))
+    where = draw(st.integers(0, 9))   # file position of the offending lines: the end and the start are over-weighted
+    pos = len(edges) if where < 4 else 0 if where < 6 else draw(st.integers(0, len(edges)))
     return kinds, extra, pos
 
 
@@ -181,10 +194,14 @@ def exact_opts(draw):
     return o, par, cores
 
 
-def run(cmd, timeout=WATCHDOG):
+def run(cmd, timeout=WATCHDOG, env_extra=None):
     import signal
     t0 = time.time()
-    p = subprocess.Popen(cmd, stdout=subprocess.PIPE, stderr=subprocess.PIPE, text=True, errors="replace", start_new_session=True)
+    env = None
+    if env_extra:
+        env = dict(os.environ)
+        env.update(env_extra)
+    p = subprocess.Popen(cmd, stdout=subprocess.PIPE, stderr=subprocess.PIPE, text=True, errors="replace", start_new_session=True, env=env)
     try:
         out, err = p.communicate(timeout=timeout)
         return p.returncode, out, err, False, time.time() - t0
@@ -219,10 +236,29 @@ class Env:
             f.write(text)
         return p
 
+    def launch_many(self, plans):
+        """plans: list of (demo, text, opts, procs); all launched concurrently; returns results in the same order"""
+        paths = [self.write(t) for _, t, _, _ in plans]
+        with ThreadPoolExecutor(max_workers=6) as ex:
+            futs = [ex.submit(self.launch, d, p, o, pr) for (d, _, o, pr), p in zip(plans, paths)]
+            return [f.result() for f in futs]
+
     def launch(self, demo, path, opts, procs=0):
         cmd = ([] if not procs else MPIRUN + [str(procs)]) + [self.bins[demo]] + list(opts) + [path]
         self.launches += 1
-        return run(cmd)
+        if not procs:
+            return run(cmd)
+        # every mpiexec gets its own session directory: concurrent launches otherwise race on /tmp/ompi.<host>.<uid>
+        for attempt in range(3):
+            self.counter += 1
+            td = os.path.join(self.workdir, "ompi-%d-%d" % (os.getpid(), self.counter))
+            os.makedirs(td, exist_ok=True)
+            res = run(cmd, env_extra={"TMPDIR": td, "OMPI_MCA_orte_tmpdir_base": td})
+            shutil.rmtree(td, ignore_errors=True)
+            if res[0] != 0 and ("unable to create the desired directory" in res[2] or "orte_init failed" in res[2] or "opal_init" in res[2]):
+                continue   # launcher infrastructure failure, not a verdict about the program
+            return res
+        return res
 
 
 def case_of(demo, text, opts, procs):
@@ -234,9 +270,11 @@ def weight_of(stdout):
     return m.group(1) if m else None
 
 
-def check_spoiled(env, demo, text, opts, procs, kinds):
-    path = env.write(text)
-    rc, out, err, to, dt = env.launch(demo, path, opts, procs)
+def check_spoiled(env, demo, text, opts, procs, kinds, res=None):
+    if res is None:
+        path = env.write(text)
+        res = env.launch(demo, path, opts, procs)
+    rc, out, err, to, dt = res
     case = case_of(demo, text, opts, procs)
     base = "C11/%s/spoiled-%s/" % (demo, "mpi-P%d" % procs if procs else "serial")
     if to:
@@ -249,9 +287,11 @@ def check_spoiled(env, demo, text, opts, procs, kinds):
         raise Violation(base + "no-diagnostic", "no diagnostic on stderr (stderr=%r)" % err[:200], case)
 
 
-def check_valid(env, demo, text, opts, procs, opt, k=None):
-    path = env.write(text)
-    rc, out, err, to, dt = env.launch(demo, path, opts, procs)
+def check_valid(env, demo, text, opts, procs, opt, k=None, res=None):
+    if res is None:
+        path = env.write(text)
+        res = env.launch(demo, path, opts, procs)
+    rc, out, err, to, dt = res
     case = case_of(demo, text, opts, procs)
     base = "C11/%s/valid-%s/" % (demo, "mpi-P%d" % procs if procs else "serial")
     if to:
@@ -309,48 +349,57 @@ def make_c11(env, stats):
         ex["k"] = draw(st.integers(2, 5))
         ex["mpi"] = draw(st.sampled_from([None, (1, 0), (2, 0), (2, 1), (2, 2), (3, 2), (4, 0), (3, 1)]))
         ex["mpi_print"] = draw(st.booleans())
+        ex["mpi_p2"] = draw(st.integers(2, 4))
+        ex["mpi_p3"] = draw(st.integers(2, 5))
         return ex
 
     def prop(ex):
         n, edges = ex["n"], ex["edges"]
         lines = [(u, v, str(w)) for u, v, w in edges]
         stats["evaluations"] += 1
-        # --- the valid file
+        # --- plan every launch of this example (valid file, then the same file spoiled), run them concurrently, judge in order
         text = dimacs_text(n, lines, ex["nl"])
         dim, opt = mcb_weight(n, edges)
         stats["classes"]["valid"] = stats["classes"].get("valid", 0) + 1
         if dim >= 2:
             stats["nontrivial"].add(hashlib.sha1(("V" + text + repr(ex["exact"])).encode()).hexdigest())
             stats["classes"]["valid-dimension>=2"] = stats["classes"].get("valid-dimension>=2", 0) + 1
-        printed = set()
+        kinds, extra, pos = ex["spoil"]
+        slines = lines[:pos] + extra + lines[pos:]
+        stext = dimacs_text(n, slines, ex["nl"])
+        stats["classes"]["spoiled-" + "+".join(sorted(kinds))] = stats["classes"].get("spoiled-" + "+".join(sorted(kinds)), 0) + 1
+        mpi_opts = (ALGOS[ex["mpi"][1]] + (["--printcycles=true"] if ex["mpi_print"] else [])) if ex["mpi"] else []
+        plans = []   # (judge, demo, text, opts, procs, extra)
         for o, par, cores in ex["exact"]:
-            printed.add(check_valid(env, "mcb-dimacs", text, o, 0, opt))
-        o, par, cores = ex["approx"]
-        check_valid(env, "approx-mcb-dimacs", text, o + ["--k=%d" % ex["k"]], 0, opt, k=ex["k"])
-        check_valid(env, "collection-stats-dimacs", text, [], 0, opt)
+            plans.append(("valid", "mcb-dimacs", text, o, 0, None))
+        ao = ex["approx"][0] + ["--k=%d" % ex["k"]]
+        plans.append(("valid", "approx-mcb-dimacs", text, ao, 0, ex["k"]))
+        plans.append(("valid", "collection-stats-dimacs", text, [], 0, None))
         if ex["mpi"] and not ex["spoiled"]:
-            P, a = ex["mpi"]
-            printed.add(check_valid(env, "mcb-dimacs-mpi", text, ALGOS[a] + (["--printcycles=true"] if ex["mpi_print"] else []), P, opt))
+            plans.append(("valid", "mcb-dimacs-mpi", text, mpi_opts, ex["mpi"][0], None))
             stats["classes"]["valid-under-mpi"] = stats["classes"].get("valid-under-mpi", 0) + 1
+        plans.append(("spoiled", "mcb-dimacs", stext, ex["exact"][0][0], 0, None))
+        plans.append(("spoiled", "approx-mcb-dimacs", stext, ao, 0, None))
+        plans.append(("spoiled", "collection-stats-dimacs", stext, [], 0, None))
+        if ex["mpi"]:
+            for PP in sorted(set([ex["mpi"][0], ex["mpi_p2"], ex["mpi_p3"]])):   # up to three generated process counts per spoiled file
+                plans.append(("spoiled", "mcb-dimacs-mpi", stext, mpi_opts, PP, None))
+                if PP >= 2:
+                    stats["nontrivial"].add(hashlib.sha1(("S" + stext + str(PP) + str(mpi_opts)).encode()).hexdigest())
+                    stats["classes"]["spoiled-under-mpi-P>=2"] = stats["classes"].get("spoiled-under-mpi-P>=2", 0) + 1
+        results = env.launch_many([(d, t, o, pr) for _, d, t, o, pr, _ in plans])
+        printed = set()
+        for (judge, d, t, o, pr, extra_k), res in zip(plans, results):
+            if judge == "valid":
+                w = check_valid(env, d, t, o, pr, opt, k=extra_k, res=res)
+                if d in ("mcb-dimacs", "mcb-dimacs-mpi"):
+                    printed.add(w)
+            else:
+                check_spoiled(env, d, t, o, pr, kinds, res=res)
         if len(printed) > 1:
             raise Violation("C11/mcb-dimacs/valid-serial/weights-differ-across-options", "printed weights %s for one file" % sorted(printed),
                             case_of("mcb-dimacs", text, ex["exact"][0][0], 0))
-        # --- the same file spoiled
-        kinds, extra, pos = ex["spoil"]
-        lines = lines[:pos] + extra + lines[pos:]
-        text = dimacs_text(n, lines, ex["nl"])
-        stats["classes"]["spoiled-" + "+".join(sorted(kinds))] = stats["classes"].get("spoiled-" + "+".join(sorted(kinds)), 0) + 1
-        o, par, cores = ex["exact"][0]
-        check_spoiled(env, "mcb-dimacs", text, o, 0, kinds)
-        o, par, cores = ex["approx"]
-        check_spoiled(env, "approx-mcb-dimacs", text, o + ["--k=%d" % ex["k"]], 0, kinds)
-        check_spoiled(env, "collection-stats-dimacs", text, [], 0, kinds)
-        if ex["mpi"] and ex["spoiled"]:
-            P, a = ex["mpi"]
-            check_spoiled(env, "mcb-dimacs-mpi", text, ALGOS[a] + (["--printcycles=true"] if ex["mpi_print"] else []), P, kinds)
-            if P >= 2:
-                stats["nontrivial"].add(hashlib.sha1(("S" + text + str(ex["mpi"])).encode()).hexdigest())
-                stats["classes"]["spoiled-under-mpi-P>=2"] = stats["classes"].get("spoiled-under-mpi-P>=2", 0) + 1
+        lines = slines
         if len(stats["samples"]) < 5 and stats["evaluations"] % 7 == 3:
             stats["samples"].append(dict(file=dimacs_text(n, lines, ex["nl"]), spoiled=ex["spoiled"], options=[o for o, _, _ in ex["exact"]], mpi=ex["mpi"]))
     return example, prop
@@ -400,6 +449,22 @@ def drive(make, env, n_examples, seed_value):
         test()
     except Violation as v:
         violation = v
+    except BaseException as e:   # Hypothesis may wrap several (or flaky) failures in a group
+        found = []
+
+        def walk(x):
+            if isinstance(x, Violation):
+                found.append(x)
+            for y in getattr(x, "exceptions", []) or []:
+                walk(y)
+            if getattr(x, "__cause__", None) is not None:
+                walk(x.__cause__)
+            if getattr(x, "__context__", None) is not None and x.__context__ is not x.__cause__:
+                walk(x.__context__)
+        walk(e)
+        if not found:
+            raise
+        violation = found[0]   # still has to survive 3 confirmations outside Hypothesis before it is reported
     return stats, violation
 
 
